@@ -86,6 +86,7 @@ type PathResult struct {
 	SampleInputs map[string]uint64 `json:"sample_inputs,omitempty"`
 	Choices      []int        `json:"choices,omitempty"`
 	NInputs      int          `json:"ninputs"`
+	ForkSites    map[string]int `json:"fork_sites,omitempty"`
 }
 
 type Job struct {
@@ -141,7 +142,9 @@ type path struct {
 	curInstr ssa.Instruction
 	curFn    *ssa.Function
 	lastMkdbFrame *frame
-	mapOrderChoice func(*path) bool
+	mapOrderPred value // harness closure func(any) bool selecting map entries whose order is a choice
+	forkSites map[string]int
+	panicAt   string
 
 	q0, qs0, qu0, qk0 int
 	t0                time.Duration
@@ -408,6 +411,10 @@ func (p *path) decide(conds []*smt.Term, vals []int64) int {
 	}
 	if len(feasible) > 1 {
 		p.forks++
+		if p.forkSites == nil {
+			p.forkSites = map[string]int{}
+		}
+		p.forkSites[p.site()]++
 	}
 	chosen := feasible[0]
 	for _, o := range feasible[1:] {
@@ -1049,6 +1056,7 @@ func RunPath(job *Job) (res PathResult) {
 	res.QCross = p.qcross
 	res.Choices = p.choices
 	res.NInputs = len(p.inputs)
+	res.ForkSites = p.forkSites
 	if !job.Concrete {
 		var q, qs, qu, qk int
 		var tm time.Duration
@@ -1090,6 +1098,9 @@ type solverBase struct {
 var fpBase solverBase
 
 func (p *path) panicSite() string {
+	if p.panicAt != "" {
+		return p.panicAt
+	}
 	if fr := p.lastMkdbFrame; fr != nil {
 		return fr.fn.String()
 	}
